@@ -113,6 +113,10 @@ def gen_large(rng, kind):
         case["m"] = 20
         case["beta"] = dict(form="float", value=float(rng.choice([5.0, 400.0, 3000.0])))
         case["lam"] = dict(form="float", value=0.11)
+        if rng.random() < 0.6:
+            case["data"]["weak"] = True            # weak per-point evidence against a large switching cost
+            case["beta"] = dict(form="float", value=float(rng.choice([30.0, 100.0])))
+            case["init"] = dict(kind="blocks")
     elif kind == "manyK":
         case["data"].update(T=int(rng.integers(300, 520)), N=int(rng.integers(1, 3)), n_reg=6, seg=12)
         case["W"] = 1 if case["data"]["N"] == 2 else int(rng.integers(1, 3))
